@@ -162,6 +162,19 @@ func (b *Bed) ClearHooks() {
 // Restart starts a new server incarnation on the same store; the previous service
 // object is abandoned (as after a process restart).
 func (b *Bed) Restart() error {
+	// "server selection timeout" means the stand-in did not complete the driver's handshake
+	// within the 500 ms window - a matter of machine load, not of the store the incarnation
+	// starts on: such a start is repeated.
+	var err error
+	for try := 0; try < 5; try++ {
+		if err = b.restartOnce(); err == nil || !strings.Contains(err.Error(), "server selection") {
+			return err
+		}
+	}
+	return err
+}
+
+func (b *Bed) restartOnce() error {
 	b.inc++
 	b.App = fmt.Sprintf("inc%d", b.inc)
 	ctx := octx.NewOrdaContext(context.TODO(), "bed")
